@@ -8,7 +8,7 @@ SPEC = {'level': 'exploration',
                  'announced child are asserted only if no same-txid copy was ever delivered while the parent was unknown (copy stored as orphan): for that state the '
                  'unchanged code has two accepted genuine low-severity defects (known_findings.txt), asserted by the deterministic probe stage c64_stripped_orphan',
                  'a failure is re-run under 3 other RNG salts (rolling bloom filters) and only counts if it reproduces in all of them'],
- 'stages': [gen('vh_c64', 'c64_malleated', 560, 9000, min_cases_quick=180, max_seconds_quick=1800, max_seconds_thorough=2400,
+ 'stages': [gen('vh_c64', 'c64_malleated', 400, 8000, min_cases_quick=150, max_seconds_quick=1800, max_seconds_thorough=2400,
                 floors={'variant-before-genuine': 0.5, 'variant-as-orphan': 0.1, 'closing-mode-A': 0.3, 'closing-mode-B': 0.06, 'closing-mode-A2': 0.03, 'variant-delivered:stripped': 0.08,
                         'block': 0.2, 'genuine-served-on-request': 0.5},
                 rule='announcement/delivery histories of genuine tx and same-txid variants; non-trivial = variant seen before the genuine tx, which is then fetched and accepted'),
